@@ -416,6 +416,16 @@ func (t *Transaction) Select(table string, where []ovsdb.Condition, columns []st
 		if err != nil {
 			return ovsdb.ResultFromError(err)
 		}
+		if columns != nil {
+			// only the requested columns are returned
+			selected := make(ovsdb.Row, len(columns))
+			for _, column := range columns {
+				if value, ok := resultRow[column]; ok {
+					selected[column] = value
+				}
+			}
+			resultRow = selected
+		}
 		results = append(results, resultRow)
 	}
 	return ovsdb.OperationResult{
